@@ -247,7 +247,7 @@ end
 
 Partial models are association lists of assigned literals (most recent first).  Unit
 propagation scans the clause list for the first unit clause, assigns it, and repeats
-(`fuel` rounds: one more than the number of variables is enough for a fixpoint); then a
+(`propFuel` rounds, enough for a fixpoint); then a
 conflict is reported if some clause has all literals false.  The cache key is the residual
 formula itself, so the hash clause holds by construction. -/
 
@@ -267,7 +267,7 @@ def unitOf (m : NModel) (c : Clause) : Option Lit :=
   if c.any (litTrue m.toP) then none else
   match c.filter (litUnset m.toP) with
   | [] => none
-  | u :: rest => if rest.all (fun l => l == u) then some u else none
+  | u :: rest => if rest.all (fun l => decide (l = u)) then some u else none
 
 def findUnit (m : NModel) : Cnf → Option Lit
   | [] => none
@@ -283,6 +283,11 @@ def propagate (cnf : Cnf) : Nat → NModel → NModel
 
 def hasConflict (cnf : Cnf) (m : NModel) : Bool := cnf.any (clauseFalsified m.toP)
 
+/-- all variable occurrences of a CNF; one more round than this is enough for a fixpoint -/
+def cnfVarList (cnf : Cnf) : List Nat := cnf.flatMap (fun c => c.map (·.var))
+
+def propFuel (cnf : Cnf) : Nat := (cnfVarList cnf).length + 1
+
 structure NaiveState where
   cnf : Cnf
   numVars : Nat
@@ -294,7 +299,7 @@ def NaiveState.top (s : NaiveState) : NModel := s.stack.headD []
 def NaiveState.prev (s : NaiveState) : NModel := (s.stack.drop 1).headD []
 
 def naiveNew (cnf : Cnf) (numVars : Nat) : Option NaiveState :=
-  let m := propagate cnf (numVars + 1) []
+  let m := propagate cnf (propFuel cnf) []
   if hasConflict cnf m then none else some ⟨cnf, numVars, [m, []]⟩
 
 def naiveIsSat (s : NaiveState) : Bool := s.cnf.all (fun c => c.any (litTrue s.top.toP))
@@ -307,7 +312,7 @@ def naiveDecide (s : NaiveState) (l : Lit) : DecideResult × NaiveState :=
       (if naiveIsSat s' then .sat else .unknown, s')
     else (.unsat, s)
   | none =>
-    let m := propagate s.cnf (s.numVars + 1) (l :: s.top)
+    let m := propagate s.cnf (propFuel s.cnf) (l :: s.top)
     if hasConflict s.cnf m then (.unsat, s)
     else
       let s' : NaiveState := { s with stack := m :: s.stack }
@@ -315,7 +320,8 @@ def naiveDecide (s : NaiveState) (l : Lit) : DecideResult × NaiveState :=
 
 /-- `PartialModel::difference`: false literals ascending, then true literals ascending -/
 def naiveDifference (s : NaiveState) : List Lit :=
-  let new (b : Bool) := (List.range s.numVars).filter
+  let bound := s.top.foldl (fun n l => max n (l.var + 1)) s.numVars
+  let new (b : Bool) := (List.range bound).filter
     (fun v => s.top.get v == some b && s.prev.get v != some b)
   (new false).map (fun v => ⟨v, false⟩) ++ (new true).map (fun v => ⟨v, true⟩)
 
